@@ -221,8 +221,8 @@ ALPHA_C19 = [
     ",", " ", "[]", "éü€日𝔘", ":*?@.-_/;#{}",
 ]
 ALPHA_BENIGN = ["abcdefghijklmnopqrstuvwxyz0123456789", "@.-_"]
-WHOLE_C06 = ['a"b', "a\\", "\\Seen", 'x", "y', 'a" :is "b', "] [", "a,b", 'say "hi"', "\\\\", 'end\\', "a\nb", "text:", "#c", "a;b", "{x}", "q'"]
-WHOLE_C19 = ["a,b", "a, b", "[x]", "x]", "[", "a b", "é,ü", ",", "a,", ",a", "list-id", "a,b,c"]
+WHOLE_C06 = ["", 'a"b', "a\\", "\\Seen", 'x", "y', 'a" :is "b', "] [", "a,b", 'say "hi"', "\\\\", 'end\\', "a\nb", "text:", "#c", "a;b", "{x}", "q'"]
+WHOLE_C19 = ["", "a,b", "a, b", "[x]", "x]", "[", "a b", "é,ü", ",", "a,", ",a", "list-id", "a,b,c"]
 
 
 class DefGen:
